@@ -603,7 +603,7 @@ def handleOp (st : St) (seq name : String) (args : List String) (outcome : Strin
         ((0, a.id), x.bank.get st.cfg.reserveAcct a.id - st.bank0.get st.cfg.reserveAcct a.id - (getResv x.resv a.id).flow)).filter fun e => e.2 != 0
     let mons := mons ++ (if idsBad then ["ids_consistent"] else [])
                      ++ (if gapChanged (resGaps pre) (resGaps impl) then ["reserve_ledger"] else [])
-                     ++ (if decide (HalvesEq impl) then [] else ["reserve_halves"])
+                     ++ (if !decide (HalvesEq impl) && decide (HalvesEq pre) then ["reserve_halves"] else [])
     let mons := mons ++ (if gl then [lendName] else [])
                      ++ (if gapChanged (borGaps st.cfg false pre) (borGaps st.cfg false impl) then ["total_borrowed"] else [])
                      ++ (if gapChanged (borGaps st.cfg true pre) (borGaps st.cfg true impl) then ["total_stable"] else [])
